@@ -4,6 +4,7 @@ Case format (sx):
   kind 1 (staggered race)   [1, has_delay, addrs, locals, batches]
   kind 0 (sequential impl)  [0, 0,         addrs, locals, batches]      (_create_connection_impl over the whole list)
   kind 2 (reordering)       [2, fams]
+  kind 3 (client)           [3, has_delay, addrs, [],     batches]      (AsyncTCPNetworkClient; see run_client)
     addrs   = [[family, create_ok, conn_kind] ...]   id of an address = its index in this list
               conn_kind: 0 connect suspends, 1 returns at once, 2 raises OSError at once, 3 raises RuntimeError at once
     locals  = [] (no local address) | [[[family, [ids for which bind() fails]] ...]]
@@ -35,6 +36,13 @@ ANCHORS = [
     (_DNS, "_interleave_addrinfos"),
     (_DNS, "_prioritize_ipv6_over_ipv4"),
     ("src/easynetwork/lowlevel/api_async/backend/_asyncio/dns_resolver.py", "AsyncIODNSResolver.connect_socket"),
+    ("src/easynetwork/lowlevel/api_async/backend/_asyncio/backend.py", "AsyncIOBackend.create_tcp_connection"),
+    ("src/easynetwork/clients/async_tcp.py", "_SocketConnector.get"),
+    ("src/easynetwork/clients/async_tcp.py", "AsyncTCPNetworkClient.__ensure_connected"),
+    ("src/easynetwork/clients/async_tcp.py", "AsyncTCPNetworkClient.aclose"),
+    ("src/easynetwork/clients/async_tcp.py", "AsyncTCPNetworkClient.wait_connected"),
+    ("src/easynetwork/clients/async_tcp.py", "AsyncTCPNetworkClient.is_closing"),
+    ("src/easynetwork/clients/async_tcp.py", "AsyncTCPNetworkClient.is_connected"),
 ]
 RULE = ("address lists of 1..4 entries over AF_INET/AF_INET6/AF_UNIX with per-address scripts (socket() fails, bind "
         "fails / no matching local family, connect suspends / returns / raises OSError / raises RuntimeError at once); "
@@ -42,7 +50,11 @@ RULE = ("address lists of 1..4 entries over AF_INET/AF_INET6/AF_UNIX with per-ad
         "pending connect, the stagger timer, cancellation of the caller, and every ordered pair of them in one loop "
         "iteration (double success, success+cancel, cancel+success, timer+success); exhaustive over short batch "
         "sequences for <= 3 addresses, seeded random beyond.  Non-trivial = at least two sockets were created, or "
-        "an error / cancel / bind event occurred.  Reordering functions: every family list up to length 6 (7 thorough) over 3 families.")
+        "an error / cancel / bind event occurred.  Client level (kind 3): AsyncTCPNetworkClient((host, port)) over the real "
+        "backend.create_tcp_connection / create_stream_connection / race with the scripted resolver; events = new "
+        "wait_connected() call, connect outcomes, stagger timer, task.cancel() of the connecting task, client.aclose(), "
+        "singly and in ordered pairs in one loop iteration, DFS guided by the implementation, plus aclose() injected "
+        "after every loop iteration of scripted runs; non-trivial = aclose()/cancel while a call is in flight.  Reordering functions: every family list up to length 6 (7 thorough) over 3 families.")
 TRUSTED = ["hand-written model coq/Conc/ConnRace.v of dns_resolver.py; FIFO ready-queue scheduler in coq/Run/C19.v "
            "(asyncio task wake-up order, TaskGroup abort, CancelScope delivery) validated by execution on CPython 3.12.1",
            "scripted connect_socket and fd-tracking socket subclass of the harness"]
@@ -295,6 +307,206 @@ def _sweep(sp, world, task, batches, d):
                 iterations=count[0], created=list(world.created_order))
 
 
+# ------------------------------------------------------------------ client level (kind 3)
+
+def _wout(task):
+    """Outcome of one wait_connected() call: 0 returned, 1 ClientClosedError, 2 CancelledError,
+    3 (group of) OSError, 4 RuntimeError (connector scope entered twice), 5 other."""
+    from easynetwork.exceptions import ClientClosedError
+    if task.cancelled():
+        return 2
+    exc = task.exception()
+    if exc is None:
+        return 0
+    if isinstance(exc, ClientClosedError):
+        return 1
+    if isinstance(exc, BaseExceptionGroup):
+        lv = list(_leaves(exc))
+        return 3 if lv and all(isinstance(e, OSError) for e in lv) else 5
+    if isinstance(exc, OSError):
+        return 3
+    if isinstance(exc, RuntimeError) and "entered twice" in str(exc):
+        return 4
+    return 5
+
+
+def run_client(inp, cancel_after_iteration=None):
+    """kind 3: AsyncTCPNetworkClient((host, port)) over the REAL AsyncIOBackend.create_tcp_connection ->
+    create_stream_connection -> staggered race, with the scripted resolver (ensure_resolved returns the scripted
+    address list, connect_socket is scripted), real tracked sockets, and an in-memory transport from
+    wrap_stream_socket (one suspension, closes the socket if it is cancelled there, as loop.create_connection does).
+    Events: 0/1/2 connect of address arg completes / OSError / RuntimeError, 3 stagger timer (first of a batch),
+            4 task.cancel() of the running wait_connected(), 5 client.aclose(), 6 a new wait_connected() call.
+    Snapshot: [flags, creation order, open ids, outcomes of the finished wait_connected() calls (each
+               [code, aclose() had already been called]), wait in progress, is_connected(), is_closing()]"""
+    _kind, has_delay, addrs, _locals, batches = inp[:5]
+    world = World(addrs, None)
+    import easynetwork.lowlevel.api_async.backend._common.dns_resolver as dns
+    from easynetwork.lowlevel.api_async.backend._asyncio.backend import AsyncIOBackend
+    from easynetwork.lowlevel.api_async.transports.abc import AsyncStreamTransport
+    from easynetwork.lowlevel.socket import INETSocketAttribute
+    from easynetwork.clients.async_tcp import AsyncTCPNetworkClient
+    from easynetwork.protocol import StreamProtocol
+    from easynetwork.serializers.line import StringLineSerializer
+    saved = dns._socket
+    dns._socket = make_socket_module(world)
+    out = []
+    try:
+        with stepkit.Stepper() as sp:
+            loop = sp.loop
+            base_resolver_cls = type(make_resolver(world))
+
+            class ClientResolver(base_resolver_cls):
+                __slots__ = ()
+
+                async def ensure_resolved(self, backend, host, port, family, type, proto=0, flags=0):
+                    return [addrinfo(i, a[0]) for i, a in enumerate(addrs)]
+
+            class MemTransport(AsyncStreamTransport):
+                def __init__(self, backend, sock):
+                    super().__init__()
+                    self._b, self.sock = backend, sock
+
+                async def aclose(self):
+                    self.sock.close()
+
+                def is_closing(self):
+                    return self.sock.fileno() == -1
+
+                def backend(self):
+                    return self._b
+
+                async def recv(self, bufsize):
+                    return b""
+
+                async def recv_into(self, buffer):
+                    return 0
+
+                async def send_all(self, data):
+                    pass
+
+                async def send_all_from_iterable(self, it):
+                    pass
+
+                async def send_eof(self):
+                    pass
+
+                @property
+                def extra_attributes(self):
+                    s = self.sock
+                    return {INETSocketAttribute.socket: lambda: s, INETSocketAttribute.family: lambda: s.family}
+
+            class Backend(AsyncIOBackend):
+                async def wrap_stream_socket(self, socket):
+                    fut = loop.create_future()
+                    loop.call_soon(lambda: fut.done() or fut.set_result(None))
+                    try:
+                        await fut
+                    except BaseException:
+                        socket.close()
+                        raise
+                    return MemTransport(self, socket)
+
+            backend = Backend()
+            backend._AsyncIOBackend__dns_resolver = ClientResolver()
+            client = AsyncTCPNetworkClient(("scripted.test", 1), StreamProtocol(StringLineSerializer()), backend,
+                                           happy_eyeballs_delay=(1.0 if has_delay else float("inf")))
+            st = dict(task=None, outs=[], aclosed=False)
+
+            def snap(flags):
+                t = st["task"]
+                if t is not None and t.done():
+                    flag = t._verif_rec[0] if t._verif_rec else t._verif_closed
+                    st["outs"].append([_wout(t), int(flag)])
+                    st["task"] = None
+                return [flags, list(world.created_order), world.open_ids(), [list(o) for o in st["outs"]],
+                        int(st["task"] is not None), int(client.is_connected()), int(client.is_closing())]
+
+            def watch(t):
+                t._verif_closed = False
+                t.add_done_callback(lambda _t: setattr(_t, "_verif_closed", st["aclosed"]))
+
+            def apply(code, arg, pos):
+                if code in (0, 1, 2, 3):
+                    return _apply(sp, world, st["task"] or _DONE, code, arg, pos)
+                if code == 4:
+                    t = st["task"]
+                    if t is None or t.done():
+                        return False
+                    t.cancel()
+                    return True
+                if code == 5:
+                    async def do_close():
+                        st["aclosed"] = True
+                        await client.aclose()
+                    st.setdefault("closers", []).append(loop.create_task(do_close()))
+                    return True
+                if code == 6:
+                    t = st["task"]
+                    if t is not None and not t.done():
+                        return False
+                    if t is not None:
+                        snap([])        # records the previous outcome
+                    rec = []
+
+                    async def call():
+                        try:
+                            return await client.wait_connected()
+                        finally:
+                            rec.append(st["aclosed"])      # had aclose() started when this call ended
+                    nt = loop.create_task(call())
+                    nt._verif_rec = rec
+                    watch(nt)
+                    st["task"] = nt
+                    return True
+                raise ValueError(code)
+
+            count = [0]
+            injected = [False]
+
+            def run_quiet():
+                if cancel_after_iteration is None:
+                    sp.quiesce()
+                    return
+                while sp.ready():
+                    sp.iterate()
+                    count[0] += 1
+                    if count[0] == cancel_after_iteration and not injected[0]:
+                        injected[0] = True
+                        apply(5, 0, 0)
+
+            run_quiet()
+            out.append(snap([]))
+            for batch in batches:
+                flags = [int(apply(code, arg, pos)) for pos, (code, arg) in enumerate(batch)]
+                run_quiet()
+                out.append(snap(flags))
+            if cancel_after_iteration is not None:
+                if not injected[0]:
+                    apply(5, 0, 0)
+                sp.quiesce()
+                t = st["task"]
+                res = dict(pending=bool(t is not None and not t.done()), open=world.open_ids(),
+                           outs=snap([])[3], iterations=count[0], connected=int(client.is_connected()))
+                return res
+            for c in st.get("closers", []):
+                if not c.done():
+                    raise RuntimeError("harness: client.aclose() did not finish")
+    finally:
+        dns._socket = saved
+        for _i, s in world.sockets:
+            s.close()
+    return out
+
+
+class _Done:
+    def done(self):
+        return True
+
+
+_DONE = _Done()
+
+
 def run_reorder(fams):
     import easynetwork.lowlevel.api_async.backend._common.dns_resolver as dns
     infos = [addrinfo(i, f) for i, f in enumerate(fams)]
@@ -318,6 +530,8 @@ def oracle(inp):
         if real_socket.AF_INET6 in fams and fams[both[0]] != real_socket.AF_INET6:
             return f"reorder: first attempt is not IPv6 although one exists: {both}"
         return None
+    if inp[0] == 3:
+        return _client_oracle(inp)
     if len(inp) > 5:
         r = run_race(inp[:5], cancel_after_iteration=inp[5])
         return _check_final(r["result"], r["open"]) if r["done"] else None
@@ -326,6 +540,36 @@ def oracle(inp):
     if msg:
         return msg
     # every socket ever open at a quiescent point belongs to a started attempt; after a result nothing changes
+    return None
+
+
+def _client_oracle(inp):
+    """Client level: whenever no wait_connected() is in progress, the only socket that may be open is the one owned by
+    a connected, not closed client; after aclose() none; a call that ends after aclose() started never succeeds."""
+    if len(inp) > 5:
+        r = run_client(inp[:5], cancel_after_iteration=inp[5])
+        if r["pending"]:
+            return "client: wait_connected() still pending after aclose()"
+        if r["open"]:
+            return f"client: sockets {r['open']} open after aclose() (injected after {inp[5]} iterations)"
+        if any(o[0] == 0 and o[1] for o in r["outs"]):
+            return "client: wait_connected() succeeded on a closed client"
+        return None
+    snaps = run_client(inp)
+    closed = False
+    for k, sn in enumerate(snaps):
+        flags, _created, open_ids, outs, waiting, connected, closing = sn
+        if k > 0:
+            closed = closed or any(f and ev[0] == 5 for f, ev in zip(flags, inp[4][k - 1]))
+        if any(o[0] == 0 and o[1] for o in outs):
+            return "client: wait_connected() succeeded on a closed client"
+        if not waiting:
+            if closed and open_ids:
+                return f"client: sockets {open_ids} open after aclose()"
+            if not connected and open_ids:
+                return f"client: sockets {open_ids} leaked by a failed or cancelled connect"
+            if closed and not closing:
+                return "client: is_closing() is False after aclose()"
     return None
 
 
@@ -373,7 +617,7 @@ def cached_run(inp):
     from common import sx
     key = sx.to_text(inp)
     if key not in _cache:
-        _cache[key] = run_race(inp)
+        _cache[key] = run_any(inp)
     return _cache[key]
 
 
@@ -381,6 +625,10 @@ def run_impl(inp):       # noqa: F811  (cases() already ran the leaves while exp
     if inp[0] == 2:
         return run_reorder(inp[1])
     return cached_run(inp)
+
+
+def run_any(inp):
+    return run_client(inp) if inp[0] == 3 else run_race(inp)
 
 
 def explore(kind, has_delay, addrs, locals_opt, rng, branch_cap, pair_cap, crash):
@@ -431,6 +679,74 @@ def cases(tier, rng, escalate):
             yield dict(input=[2, [int(f) for f in fams]], tags=["reorder", f"n{n}"],
                        nontrivial=len(set(fams)) > 1)
     yield from race_cases(thorough, rng)
+    yield from client_cases(thorough, rng)
+
+
+def explore_client(has_delay, addrs, rng, max_len, branch_cap, pair_cap):
+    """DFS over event sequences at client level; the implementation tells which connects are pending."""
+    stack = [[]]
+    while stack:
+        prefix = stack.pop()
+        out = cached_run([3, has_delay, addrs, [], prefix])
+        flags, _created, open_ids, outs, waiting, connected, closing = out[-1]
+        evs = [e for b in prefix for e in b]
+        n_close = sum(1 for e in evs if e[0] == 5)
+        n_wait = sum(1 for e in evs if e[0] == 6)
+        if prefix and not any(flags):
+            yield prefix, ["client-noop-event"]
+            continue
+        if len(prefix) >= max_len or (n_close >= 1 and not waiting and n_wait >= 2 and prefix[-1][0][0] == 6):
+            yield prefix, ["client-singles", f"len{len(prefix)}"]
+            continue
+        singles = []
+        if n_close < 2:
+            singles.append([5, 0])
+        if not waiting and n_wait < 3:
+            singles.append([6, 0])
+        if waiting:
+            singles.append([4, 0])
+            if has_delay:
+                singles.append([3, 0])
+            for i in open_ids:
+                singles += [[0, i], [1, i]]
+        if not singles:
+            yield prefix, ["client-singles", f"len{len(prefix)}"]
+            continue
+        kids = list(singles)
+        if len(prefix) >= 2 and len(kids) > branch_cap:
+            rng.shuffle(kids)
+            keep = [k for k in kids if k[0] in (5, 6)][:2]
+            kids = keep + [k for k in kids if k not in keep][:max(1, branch_cap - len(keep))]
+        for ev in kids:
+            stack.append(prefix + [[ev]])
+        pairs = [[x, y] for x in singles for y in singles
+                 if x != y and y[0] != 3 and not (x[0] in (0, 1) and y[0] in (0, 1) and x[1] == y[1])
+                 and (x[0] in (4, 5) or y[0] in (4, 5))]
+        if len(pairs) > pair_cap:
+            rng.shuffle(pairs)
+            pairs = pairs[:pair_cap]
+        names = {0: "ok", 1: "fail", 2: "crash", 3: "timer", 4: "taskcancel", 5: "aclose", 6: "wait"}
+        for pr in pairs:
+            yield prefix + [pr, [[6, 0]], [[5, 0]], [[6, 0]]], ["client-pair", "cpair:" + "+".join(names[e[0]] for e in pr)]
+
+
+def client_cases(thorough, rng):
+    A4, A6, _AU = (int(f) for f in FAMS)
+    confs = [([[A6, 1, 0]], 1), ([[A6, 1, 0], [A4, 1, 0]], 1), ([[A4, 1, 0], [A6, 1, 0]], 0),
+             ([[A6, 1, 1]], 0), ([[A4, 1, 2], [A6, 1, 0]], 1), ([[A6, 0, 0], [A4, 1, 0]], 0),
+             ([[A6, 1, 0], [A4, 1, 0], [A6, 1, 0]], 1), ([[A4, 1, 3], [A6, 1, 0]], 1)]
+    for addrs, has_delay in confs:
+        n = len(addrs)
+        for batches, tags in explore_client(has_delay, addrs, rng, (7 if thorough else 6) if n < 3 else 5,
+                                            (5 if thorough else 3), (20 if thorough else 8)):
+            inp = [3, has_delay, addrs, [], batches]
+            evs = [e for b in batches for e in b]
+            out = cached_run(inp)
+            during = any(sn[4] and any(f and ev[0] in (4, 5) for f, ev in zip(nx[0], b))
+                         for sn, nx, b in zip(out, out[1:], batches))
+            yield dict(input=inp, tags=tags + ["kind3", f"n{n}", "delay" if has_delay else "nodelay"] +
+                       (["close-or-cancel-in-flight"] if during else []),
+                       nontrivial=bool(during or any(e[0] in (1, 2) for e in evs)))
 
 
 SCRIPTS = [(1, 0), (1, 0), (1, 1), (1, 2), (0, 0), (1, 3)]   # (create_ok, conn_kind); suspension twice as likely
@@ -508,4 +824,26 @@ def extra(ctx):
                     bad += 1
                     ctx.problems.append(dict(kind="correspondence", detail=f"cancel sweep d={d}: {msg}",
                                              input=__import__("common.sx", fromlist=["sx"]).to_text(inp + [d])))
-    return dict(cancel_sweep_runs=runs, cancel_sweep_failures=bad)
+    # client level: aclose() injected after d loop iterations, for every d of the scripted run
+    cruns = cbad = 0
+    cscripts = [
+        ([[A6, 1, 0], [A4, 1, 0]], 1, [[[6, 0]], [[3, 0]], [[0, 0]]]),
+        ([[A6, 1, 0], [A4, 1, 0]], 1, [[[6, 0]], [[3, 0]], [[0, 1], [0, 0]]]),
+        ([[A6, 1, 0], [A4, 1, 0]], 0, [[[6, 0]], [[1, 0]], [[0, 1]]]),
+        ([[A6, 1, 1]], 0, [[[6, 0]]]),
+        ([[A4, 1, 2], [A6, 1, 0]], 1, [[[6, 0]], [[0, 1]]]),
+        ([[A6, 1, 0], [A4, 1, 0], [A6, 1, 0]], 1, [[[6, 0]], [[3, 0]], [[3, 0]], [[1, 0]], [[0, 2]]]),
+    ]
+    from common import sx as _sx
+    for addrs, has_delay, batches in cscripts:
+        inp = [3, has_delay, addrs, [], batches]
+        total = run_client(inp, cancel_after_iteration=10 ** 6)["iterations"]
+        for d in range(0, total + 2):
+            cruns += 1
+            msg = _client_oracle(inp + [d])
+            if msg:
+                cbad += 1
+                ctx.problems.append(dict(kind="correspondence", detail=f"client aclose sweep d={d}: {msg}",
+                                         input=_sx.to_text(inp + [d])))
+    return dict(cancel_sweep_runs=runs, cancel_sweep_failures=bad, client_close_sweep_runs=cruns,
+                client_close_sweep_failures=cbad)
